@@ -44,3 +44,24 @@ pub fn open_rw<P: AsRef<Path>>(path: P) -> io::Result<Package<fs::File>> {
 }
 
 // ========================================================================= //
+
+// ========================================================================= //
+
+/// Test-only accessors used by external verification harnesses.  Compiled only
+/// with `--cfg msi_verif`; never part of the normal API.
+#[cfg(msi_verif)]
+#[allow(missing_docs)]
+pub mod verif {
+    use crate::internal::table::Table;
+    pub use crate::internal::{
+        codepage, column, propset, streamname, stringpool, table, timestamp,
+        value,
+    };
+    use crate::{Column, Row, Value};
+
+    /// Builds a free-standing row (of an anonymous table) from columns and
+    /// values.
+    pub fn make_row(columns: Vec<Column>, values: Vec<Value>) -> Row {
+        Row::new(Table::new(String::new(), columns, false), values)
+    }
+}
